@@ -297,3 +297,884 @@ Proof.
 Qed.
 Lemma touch_frags_incl t v : forall x, In x (touch (frags t v)) -> x = t.
 Proof. destruct v as [|b v']; [intros x []|apply touch_frags; discriminate]. Qed.
+
+(** ** 6. the reader seen through the tags of one field: columns + the rest *)
+Definition mrest (m : rmap) (ts : list N) : rmap := filter (fun p => negb (mem (fst p) ts)) m.
+
+Record cols (m : rmap) (ts : list N) (C : N -> list bytes) (M : rmap) : Prop := mkCols {
+  c_get : forall t, In t ts -> mget m t = C t;
+  c_rest : mrest m ts = M;
+  c_ne : no_empty m }.
+
+Lemma mem_in t ts : mem t ts = true <-> In t ts.
+Proof.
+  unfold mem. rewrite existsb_exists. split.
+  - intros (x & Hx & E). apply N.eqb_eq in E. subst. exact Hx.
+  - intros H. exists t. split; [exact H|apply N.eqb_refl].
+Qed.
+
+Lemma mrest_mdel m t ts : In t ts -> mrest (mdel m t) ts = mrest m ts.
+Proof.
+  intros Ht. induction m as [|[k l] m IH]; [reflexivity|]. cbn [mdel].
+  destruct (N.eqb_spec k t) as [->|Ne].
+  - unfold mrest at 2. cbn [filter fst]. apply mem_in in Ht. rewrite Ht. cbn [negb]. exact IH.
+  - unfold mrest. cbn [filter fst]. fold (mrest (mdel m t) ts). fold (mrest m ts). rewrite IH. reflexivity.
+Qed.
+Lemma mrest_mset m t l ts : In t ts -> mrest (mset m t l) ts = mrest m ts.
+Proof.
+  intros Ht. unfold mset. destruct l; [apply mrest_mdel; exact Ht|].
+  unfold mrest. cbn [filter fst]. pose proof (proj2 (mem_in t ts) Ht) as E. rewrite E. cbn [negb].
+  apply mrest_mdel. exact Ht.
+Qed.
+Lemma mrest_none m ts : (forall t, In t ts -> ~ In t (keys m)) -> mrest m ts = m.
+Proof.
+  intros H. induction m as [|[k l] m IH]; [reflexivity|]. unfold mrest. cbn [filter fst].
+  destruct (mem k ts) eqn:E.
+  - apply mem_in in E. exfalso. apply (H k E). left. reflexivity.
+  - cbn [negb]. f_equal. apply IH. intros t Ht Hi. apply (H t Ht). right. exact Hi.
+Qed.
+Lemma mrest_all m ts : (forall x, In x (keys m) -> In x ts) -> mrest m ts = [].
+Proof.
+  intros H. induction m as [|[k l] m IH]; [reflexivity|]. unfold mrest. cbn [filter fst].
+  assert (E : mem k ts = true) by (apply mem_in, H; left; reflexivity). rewrite E. cbn [negb].
+  apply IH. intros x Hx. apply H. right. exact Hx.
+Qed.
+Lemma mrest_app a b ts : mrest (a ++ b) ts = mrest a ts ++ mrest b ts.
+Proof. unfold mrest. apply filter_app. Qed.
+
+Lemma pop_cols m ts C M t b r : cols m ts C M -> In t ts -> C t = b :: r ->
+  pop m t = Some (b, mset m t r) /\ cols (mset m t r) ts (fun x => if x =? t then r else C x) M.
+Proof.
+  intros [Hg Hr Hn] Ht Hc. unfold pop. rewrite (Hg t Ht), Hc. split; [reflexivity|]. constructor.
+  - intros x Hx. destruct (N.eqb_spec x t) as [->|Ne]; [apply mget_mset_same|rewrite mget_mset_other by exact Ne; apply Hg; exact Hx].
+  - rewrite mrest_mset by exact Ht. exact Hr.
+  - apply no_empty_mset. exact Hn.
+Qed.
+Lemma pop_cols_none m ts C M t : cols m ts C M -> In t ts -> C t = [] -> pop m t = None.
+Proof. intros [Hg _ _] Ht Hc. unfold pop. rewrite (Hg t Ht), Hc. reflexivity. Qed.
+Lemma cols_done m ts C M : cols m ts C M -> (forall t, In t ts -> C t = []) -> m = M.
+Proof.
+  intros [Hg Hr Hn] Hc. rewrite <- Hr. symmetry. apply mrest_none.
+  intros t Ht. apply mget_empty_notin; [exact Hn|]. rewrite (Hg t Ht). apply Hc. exact Ht.
+Qed.
+Lemma cols_ext m ts C C' M : cols m ts C M -> (forall t, In t ts -> C t = C' t) -> cols m ts C' M.
+Proof. intros [Hg Hr Hn] He. constructor; [intros t Ht; rewrite <- He by exact Ht; apply Hg; exact Ht|exact Hr|exact Hn]. Qed.
+
+Lemma no_empty_app a b : no_empty a -> no_empty b -> no_empty (a ++ b).
+Proof. intros. apply Forall_app. split; assumption. Qed.
+
+Lemma cols_of_app M F ts : no_empty M -> no_empty F -> (forall x, In x (keys F) -> In x ts) ->
+  (forall t, In t ts -> ~ In t (keys M)) -> cols (M ++ F) ts (mget F) M.
+Proof.
+  intros HM HF HkF HkM. constructor.
+  - intros t Ht. rewrite mget_app. rewrite (mget_notin M t (HkM t Ht)).
+    destruct (existsb (N.eqb t) (keys M)) eqn:E; [|reflexivity].
+    apply existsb_exists in E. destruct E as (y & Hy & Ey). apply N.eqb_eq in Ey. subst y. exfalso. exact (HkM t Ht Hy).
+  - rewrite mrest_app, (mrest_none M ts HkM), (mrest_all F ts HkF). apply app_nil_r.
+  - apply no_empty_app; assumption.
+Qed.
+
+(** ** 7. scalars *)
+Local Open Scope Z_scope.
+Lemma le_z_length k : forall z, length (le_z k z) = k.
+Proof. induction k; intros; cbn [le_z length]; auto. Qed.
+Lemma of_le_le_z k : forall z, of_le (le_z k z) = z mod 256 ^ Z.of_nat k.
+Proof.
+  induction k as [|k IH]; intros z.
+  - cbn [le_z of_le]. change (256 ^ Z.of_nat 0) with 1. rewrite Z.mod_1_r. reflexivity.
+  - cbn [le_z of_le]. rewrite IH. rewrite Z2N.id by (apply Z.mod_pos_bound; lia).
+    rewrite Nat2Z.inj_succ, Z.pow_succ_r by lia.
+    rewrite (Z.rem_mul_r z 256 (256 ^ Z.of_nat k)) by (try lia; apply Z.pow_pos_nonneg; lia). reflexivity.
+Qed.
+Lemma le_prefix_exact k b : length b = k -> le_prefix k b = Some (of_le b).
+Proof. intros H. unfold le_prefix. rewrite H, Nat.ltb_irrefl, <- H, firstn_all. reflexivity. Qed.
+
+Definition in_range (t : ty) (z : Z) : bool :=
+  match t with
+  | TU8 => (0 <=? z) && (z <? 256)
+  | TU16 => (0 <=? z) && (z <? 65536)
+  | TU32 | TF32 => (0 <=? z) && (z <? 4294967296)
+  | TU64 => (0 <=? z) && (z <? 18446744073709551616)
+  | TI16 => (-32768 <=? z) && (z <? 32768)
+  | TI32 => (-2147483648 <=? z) && (z <? 2147483648)
+  | TI64 => (-9223372036854775808 <=? z) && (z <? 9223372036854775808)
+  | _ => false
+  end.
+
+Definition ok_scalar (t : ty) (v : val) : bool :=
+  match t, v with
+  | (TU8 | TU16 | TU32 | TU64 | TI16 | TI32 | TI64 | TF32), VNum z => in_range t z
+  | TBool, VBool _ => true
+  | (TStr | TBytes), VBytes _ => true
+  | _, _ => false
+  end.
+
+Definition payload (t : ty) (v : val) : bytes :=
+  match t, v with
+  | TU8, VNum z => [Z.to_N (z mod 256)]
+  | (TU16 | TI16), VNum z => le_z 2 z
+  | (TU32 | TI32 | TF32), VNum z => le_z 4 z
+  | (TU64 | TI64), VNum z => le_z 8 z
+  | TBool, VBool b => [if b then 1%N else 0%N]
+  | (TStr | TBytes), VBytes b => b
+  | _, _ => []
+  end.
+
+Definition norm_scalar (t : ty) (v : val) : val :=
+  match t, v with TF32, VNum z => VNum (quiet z) | _, _ => v end.
+
+Lemma chunks_one (x : N) : chunks 255 [x] = [[x]].
+Proof. reflexivity. Qed.
+
+Lemma enc_scalar tag t v : is_scalar t = true -> ok_scalar t v = true ->
+  enc_val K tag t v = flat (frags tag (payload t v)).
+Proof.
+  intros Hs Hok. rewrite <- write_bytes_flat.
+  destruct t; try discriminate; destruct v; try discriminate; cbn [enc_val payload k_i64_width k_f32_written fixed_knobs]; try reflexivity.
+Qed.
+
+Lemma payload_nonempty t v : is_scalar t = true -> ok_scalar t v = true ->
+  payload t v = [] -> (t = TStr \/ t = TBytes) /\ v = VBytes [].
+Proof.
+  intros Hs Hok. destruct t; try discriminate; destruct v; try discriminate; cbn [payload le_z]; try discriminate.
+  - intros ->. auto.
+  - intros ->. auto.
+Qed.
+
+Lemma signed_mod bits z : 0 < bits -> - 2 ^ (bits - 1) <= z < 2 ^ (bits - 1) -> signed bits (z mod 2 ^ bits) = z.
+Proof.
+  intros Hb Hz. unfold signed. assert (E : 2 ^ bits = 2 * 2 ^ (bits - 1)) by (rewrite <- Z.pow_succ_r by lia; f_equal; lia).
+  assert (Hp : 0 < 2 ^ (bits - 1)) by (apply Z.pow_pos_nonneg; lia).
+  destruct (Z.ltb_spec (z mod 2 ^ bits) (2 ^ (bits - 1))) as [L|G].
+  - destruct (Z.lt_ge_cases z 0) as [Neg|Pos].
+    + exfalso. rewrite <- (Z.mod_add z 1 (2 ^ bits)) in L by lia. rewrite Z.mod_small in L by lia. lia.
+    + rewrite Z.mod_small by lia. reflexivity.
+  - destruct (Z.lt_ge_cases z 0) as [Neg|Pos].
+    + rewrite <- (Z.mod_add z 1 (2 ^ bits)) by lia. rewrite Z.mod_small by lia. lia.
+    + rewrite Z.mod_small in G by lia. lia.
+Qed.
+
+Local Close Scope Z_scope.
+
+(** reading back one scalar from a reader whose column for the tag starts with the payload *)
+Lemma scalar_decode m ts C M tag t v r : is_scalar t = true -> ok_scalar t v = true ->
+  cols m ts C M -> In tag ts -> payload t v <> [] -> C tag = payload t v :: r ->
+  scalar_field K t m tag = Ok (Some (norm_scalar t v), mset m tag r) /\
+  cols (mset m tag r) ts (fun x => if x =? tag then r else C x) M.
+Proof.
+  intros Hs Hok Hc Ht Hne HC. destruct (pop_cols m ts C M tag _ r Hc Ht HC) as [Hpop Hc']. split; [|exact Hc'].
+  destruct t; try discriminate; destruct v; try discriminate; cbn [payload] in *;
+    cbn [scalar_field norm_scalar]; unfold read_u, read_i; rewrite Hpop; cbv zeta;
+    rewrite ?le_z_length; cbn [Nat.ltb Nat.leb Nat.min Nat.eqb];
+    rewrite ?le_prefix_exact by apply le_z_length; rewrite ?of_le_le_z; cbn [ok_scalar in_range] in Hok.
+  - (* u8 *) rewrite Z2N.id by (apply Z.mod_pos_bound; lia). rewrite Z.mod_small by lia. reflexivity.
+  - (* u16 *) rewrite Z.mod_small by (change (256 ^ Z.of_nat 2)%Z with 65536%Z; lia). reflexivity.
+  - (* u32 *) rewrite Z.mod_small by (change (256 ^ Z.of_nat 4)%Z with 4294967296%Z; lia). reflexivity.
+  - (* u64 *) rewrite Z.mod_small by (change (256 ^ Z.of_nat 8)%Z with 18446744073709551616%Z; lia). reflexivity.
+  - (* i16 *) change (8 * Z.of_nat 2)%Z with 16%Z. change (256 ^ Z.of_nat 2)%Z with (2 ^ 16)%Z.
+    rewrite signed_mod by (change (2 ^ (16 - 1))%Z with 32768%Z; lia). reflexivity.
+  - (* i32 *) change (8 * Z.of_nat 4)%Z with 32%Z. change (256 ^ Z.of_nat 4)%Z with (2 ^ 32)%Z.
+    rewrite signed_mod by (change (2 ^ (32 - 1))%Z with 2147483648%Z; lia). reflexivity.
+  - (* i64 *) change (8 * Z.of_nat 8)%Z with 64%Z. change (256 ^ Z.of_nat 8)%Z with (2 ^ 64)%Z.
+    rewrite signed_mod by (change (2 ^ (64 - 1))%Z with 9223372036854775808%Z; lia). reflexivity.
+  - (* f32 *) rewrite Z.mod_small by (change (256 ^ Z.of_nat 4)%Z with 4294967296%Z; lia). reflexivity.
+  - (* bool *) destruct b; reflexivity.
+  - reflexivity.
+  - reflexivity.
+Qed.
+
+Lemma scalar_decode_absent m ts C M tag t : is_scalar t = true ->
+  cols m ts C M -> In tag ts -> C tag = [] ->
+  scalar_field K t m tag = Ok (Some (zero_scalar t), m).
+Proof.
+  intros Hs Hc Ht HC. pose proof (pop_cols_none m ts C M tag Hc Ht HC) as Hpop.
+  destruct t; try discriminate; cbn [scalar_field]; unfold read_u, read_i; rewrite Hpop; reflexivity.
+Qed.
+
+(** ** 8. items of whole values; typing and regularity; normal form *)
+Definition is_nil {A} (l : list A) : bool := match l with [] => true | _ => false end.
+
+Fixpoint it_val (tag : N) (t : ty) (v : val) {struct v} : list itm :=
+  match t, v with
+  | TStruct fs, VStruct vs => frags tag (enc_vals K fs vs)
+  | TList fs, VList l => it_list tag fs l true
+  | TInline fs, VList l => it_inline fs l true
+  | _, _ => frags tag (payload t v)
+  end
+with it_vals (fs : fields) (vs : vals) {struct vs} : list itm :=
+  match fs, vs with
+  | FCons tag t fr, VCons v vr => it_val tag t v ++ it_vals fr vr
+  | _, _ => []
+  end
+with it_list (tag : N) (fs : fields) (l : vlist) (first : bool) {struct l} : list itm :=
+  match l with
+  | LNil => []
+  | LCons e r => (if first then [] else [(0, [])]) ++ frags tag (enc_vals K fs e) ++ it_list tag fs r false
+  end
+with it_inline (fs : fields) (l : vlist) (first : bool) {struct l} : list itm :=
+  match l with
+  | LNil => []
+  | LCons e r => (if first then [] else [(0, [])]) ++ it_vals fs e ++ it_inline fs r false
+  end.
+
+Fixpoint full (fs : fields) (vs : vals) : bool :=
+  match fs, vs with
+  | FCons _ t fr, VCons v vr => negb (is_nil (payload t v)) && full fr vr
+  | _, _ => true
+  end.
+
+(** well-typed values inside the round-trip theorem: numbers in range; list elements have a
+    non-empty encoding; inline list elements have no empty string / byte string *)
+Fixpoint okv (t : ty) (v : val) {struct v} : bool :=
+  match t, v with
+  | TStruct fs, VStruct vs => okvs fs vs
+  | TList fs, VList l => okl fs l
+  | TInline fs, VList l => okil fs l
+  | TStruct _, _ | TList _, _ | TInline _, _ => false
+  | _, _ => ok_scalar t v
+  end
+with okvs (fs : fields) (vs : vals) {struct vs} : bool :=
+  match fs, vs with
+  | FNil, VNil => true
+  | FCons _ t fr, VCons v vr => okv t v && okvs fr vr
+  | _, _ => false
+  end
+with okl (fs : fields) (l : vlist) {struct l} : bool :=
+  match l with
+  | LNil => true
+  | LCons e r => okvs fs e && negb (is_nil (enc_vals K fs e)) && okl fs r
+  end
+with okil (fs : fields) (l : vlist) {struct l} : bool :=
+  match l with
+  | LNil => true
+  | LCons e r => okvs fs e && full fs e && negb (is_nil (enc_vals K fs e)) && okil fs r
+  end.
+
+Fixpoint norm_val (t : ty) (v : val) {struct v} : val :=
+  match t, v with
+  | TStruct fs, VStruct vs => VStruct (norm_vals fs vs)
+  | TList fs, VList l => VList (norm_list fs l)
+  | TInline fs, VList l => VList (norm_list fs l)
+  | _, _ => norm_scalar t v
+  end
+with norm_vals (fs : fields) (vs : vals) {struct vs} : vals :=
+  match fs, vs with
+  | FCons _ t fr, VCons v vr => VCons (norm_val t v) (norm_vals fr vr)
+  | _, _ => vs
+  end
+with norm_list (fs : fields) (l : vlist) {struct l} : vlist :=
+  match l with
+  | LNil => LNil
+  | LCons e r => LCons (norm_vals fs e) (norm_list fs r)
+  end.
+
+Scheme val_mind := Induction for val Sort Prop
+  with vals_mind := Induction for vals Sort Prop
+  with vlist_mind := Induction for vlist Sort Prop.
+Combined Scheme value_mutind from val_mind, vals_mind, vlist_mind.
+
+Lemma short_app a b : Forall short a -> Forall short b -> Forall short (a ++ b).
+Proof. intros. apply Forall_app. split; assumption. Qed.
+Lemma short_delim : Forall short [(0, [])].
+Proof. constructor; [unfold short; cbn; lia|constructor]. Qed.
+
+Lemma enc_vals_cons tag t fr v vr : enc_vals K (FCons tag t fr) (VCons v vr) = enc_val K tag t v ++ enc_vals K fr vr.
+Proof. reflexivity. Qed.
+Lemma it_vals_cons tag t fr v vr : it_vals (FCons tag t fr) (VCons v vr) = it_val tag t v ++ it_vals fr vr.
+Proof. reflexivity. Qed.
+Lemma enc_list_cons tag fs e r first : enc_list K tag fs (LCons e r) first =
+  (if first then [] else delimiter) ++ write_bytes tag (enc_vals K fs e) ++ enc_list K tag fs r false.
+Proof. reflexivity. Qed.
+Lemma it_list_cons tag fs e r first : it_list tag fs (LCons e r) first =
+  (if first then [] else [(0, [])]) ++ frags tag (enc_vals K fs e) ++ it_list tag fs r false.
+Proof. reflexivity. Qed.
+Lemma enc_inline_cons fs e r first : enc_inline K fs (LCons e r) first =
+  (if first then [] else delimiter) ++ enc_vals K fs e ++ enc_inline K fs r false.
+Proof. reflexivity. Qed.
+Lemma it_inline_cons fs e r first : it_inline fs (LCons e r) first =
+  (if first then [] else [(0, [])]) ++ it_vals fs e ++ it_inline fs r false.
+Proof. reflexivity. Qed.
+
+(** the bytes of an encoding are the concatenation of its items *)
+Lemma enc_flat :
+  (forall v tag t, okv t v = true -> enc_val K tag t v = flat (it_val tag t v) /\ Forall short (it_val tag t v)) /\
+  (forall vs fs, okvs fs vs = true -> enc_vals K fs vs = flat (it_vals fs vs) /\ Forall short (it_vals fs vs)) /\
+  (forall l fs, (forall tag first, okl fs l = true ->
+                  enc_list K tag fs l first = flat (it_list tag fs l first) /\ Forall short (it_list tag fs l first)) /\
+                (forall first, okil fs l = true ->
+                  enc_inline K fs l first = flat (it_inline fs l first) /\ Forall short (it_inline fs l first))).
+Proof.
+  apply value_mutind.
+  - (* VNum *) intros z tag t Hok. split; [|destruct t; apply frags_short].
+    destruct t; try discriminate; apply enc_scalar; auto.
+  - intros b tag t Hok. split; [|destruct t; apply frags_short].
+    destruct t; try discriminate; apply enc_scalar; auto.
+  - intros b tag t Hok. split; [|destruct t; apply frags_short].
+    destruct t; try discriminate; apply enc_scalar; auto.
+  - (* VStruct *) intros vs IH tag t Hok. destruct t; try discriminate. cbn [enc_val it_val].
+    split; [apply write_bytes_flat|apply frags_short].
+  - (* VList *) intros l IH tag t Hok. destruct t; try discriminate; cbn [enc_val it_val okv] in *.
+    + apply (proj1 (IH fs)). exact Hok.
+    + apply (proj2 (IH fs)). exact Hok.
+  - (* VNil *) intros fs Hok. destruct fs; [|discriminate]. split; [reflexivity|constructor].
+  - (* VCons *) intros v IHv vr IHr fs Hok. destruct fs as [|tag t fr]; [discriminate|]. cbn [okvs] in Hok.
+    apply andb_true_iff in Hok. destruct Hok as [H1 H2]. rewrite enc_vals_cons, it_vals_cons.
+    destruct (IHv tag t H1) as [E1 S1]. destruct (IHr fr H2) as [E2 S2].
+    split; [rewrite flat_app, E1, E2; reflexivity|apply short_app; assumption].
+  - (* LNil *) intros fs. split; intros; split; try reflexivity; constructor.
+  - (* LCons *) intros e IHe r IHr fs. split.
+    + intros tag first Hok. cbn [okl] in Hok. apply andb_true_iff in Hok. destruct Hok as [H12 H3].
+      apply andb_true_iff in H12. destruct H12 as [H1 H2].
+      rewrite enc_list_cons, it_list_cons. destruct (proj1 (IHr fs) tag false H3) as [E S]. split.
+      * rewrite !flat_app, E, write_bytes_flat. destruct first; reflexivity.
+      * apply short_app; [destruct first; [constructor|apply short_delim]|apply short_app; [apply frags_short|exact S]].
+    + intros first Hok. cbn [okil] in Hok. apply andb_true_iff in Hok. destruct Hok as [H123 H4].
+      apply andb_true_iff in H123. destruct H123 as [H12 H3]. apply andb_true_iff in H12. destruct H12 as [H1 H2].
+      rewrite enc_inline_cons, it_inline_cons. destruct (proj2 (IHr fs) false H4) as [E S]. destruct (IHe fs H1) as [Ee Se]. split.
+      * rewrite !flat_app, E, Ee. destruct first; reflexivity.
+      * apply short_app; [destruct first; [constructor|apply short_delim]|apply short_app; assumption].
+Qed.
+
+(** ** 9. the map of one field *)
+Definition ftags (tag : N) (t : ty) : list N := match t with TInline fs => own_tags fs | _ => [tag] end.
+
+Lemma field_tags_scalars fs : scalars_only fs = true -> field_tags fs = own_tags fs.
+Proof.
+  induction fs as [|tag t r IH]; [reflexivity|]. cbn [scalars_only]. intros H. apply andb_true_iff in H. destruct H as [H1 H2].
+  destruct t; try discriminate; cbn [field_tags own_tags]; rewrite (IH H2); reflexivity.
+Qed.
+
+Lemma it_val_scalar tag t v : is_scalar t = true -> it_val tag t v = frags tag (payload t v).
+Proof. intros H. destruct t; try discriminate; destruct v; reflexivity. Qed.
+
+Lemma touch_delim : touch [(0, [])] = [].
+Proof. reflexivity. Qed.
+
+Lemma touch_values :
+  (forall v tag t, wf_ty t = true -> incl (touch (it_val tag t v)) (ftags tag t)) /\
+  (forall vs fs, wf_each fs = true -> incl (touch (it_vals fs vs)) (field_tags fs)) /\
+  (forall l fs, wf_each fs = true ->
+     (forall tag first, incl (touch (it_list tag fs l first)) [tag]) /\
+     (forall first, incl (touch (it_inline fs l first)) (field_tags fs))).
+Proof.
+  apply value_mutind.
+  - intros z tag t _ x Hx. destruct t; cbn [it_val ftags] in *; try (left; symmetry; exact (touch_frags_incl _ _ _ Hx)); destruct Hx.
+  - intros b tag t _ x Hx. destruct t; cbn [it_val ftags] in *; try (left; symmetry; exact (touch_frags_incl _ _ _ Hx)); destruct Hx.
+  - intros b tag t _ x Hx. destruct t; cbn [it_val ftags] in *; try (left; symmetry; exact (touch_frags_incl _ _ _ Hx)); destruct Hx.
+  - intros vs _ tag t _ x Hx. destruct t; cbn [it_val ftags] in *; try (left; symmetry; exact (touch_frags_incl _ _ _ Hx)); destruct Hx.
+  - intros l IH tag t Hwf x Hx. destruct t; cbn [it_val ftags] in *; try (left; symmetry; exact (touch_frags_incl _ _ _ Hx)).
+    + cbn [wf_ty] in Hwf. apply andb_true_iff in Hwf. destruct Hwf as [_ Hw]. exact (proj1 (IH fs Hw) tag true x Hx).
+    + cbn [wf_ty] in Hwf. rewrite <- (field_tags_scalars fs Hwf).
+      assert (Hw : wf_each fs = true).
+      { clear -Hwf. induction fs as [|tg t r IHf]; [reflexivity|]. cbn [scalars_only] in Hwf. apply andb_true_iff in Hwf. destruct Hwf as [A B].
+        cbn [wf_each]. rewrite (IHf B). destruct t; try discriminate; reflexivity. }
+      exact (proj2 (IH fs Hw) true x Hx).
+  - intros fs _ x Hx. destruct fs; destruct Hx.
+  - intros v IHv vr IHr fs Hwf x Hx. destruct fs as [|tag t fr]; [destruct Hx|]. rewrite it_vals_cons, touch_app in Hx.
+    cbn [wf_each] in Hwf. apply andb_true_iff in Hwf. destruct Hwf as [W1 W2].
+    apply in_app_or in Hx. destruct Hx as [Hx|Hx].
+    + pose proof (IHv tag t W1 x Hx) as H. destruct t; cbn [field_tags ftags] in *; try (destruct H as [<-|[]]; left; reflexivity).
+      apply in_or_app. left. exact H.
+    + pose proof (IHr fr W2 x Hx) as H. destruct t; cbn [field_tags]; try (right; exact H). apply in_or_app. right. exact H.
+  - intros fs _. split; intros; intros x Hx; destruct Hx.
+  - intros e IHe r IHr fs Hwf. split.
+    + intros tag first x Hx. rewrite it_list_cons, !touch_app in Hx. apply in_app_or in Hx. destruct Hx as [Hx|Hx]; [destruct first; destruct Hx|].
+      apply in_app_or in Hx. destruct Hx as [Hx|Hx]; [left; symmetry; exact (touch_frags_incl _ _ _ Hx)|exact (proj1 (IHr fs Hwf) tag false x Hx)].
+    + intros first x Hx. rewrite it_inline_cons, !touch_app in Hx. apply in_app_or in Hx. destruct Hx as [Hx|Hx]; [destruct first; destruct Hx|].
+      apply in_app_or in Hx. destruct Hx as [Hx|Hx]; [exact (IHe fs Hwf x Hx)|exact (proj2 (IHr fs Hwf) false x Hx)].
+Qed.
+
+Lemma fillmap_keys its : forall x, In x (keys (fillmap its)) -> In x (touch its).
+Proof. intros x Hx. destruct (fold_keys its [] [] x Hx) as [[]|H]. exact H. Qed.
+Lemma fillmap_no_empty its : no_empty (fillmap its).
+Proof. apply fold_no_empty. constructor. Qed.
+
+(** a single value *)
+Lemma fillmap_frags tag p : p <> [] -> forall x, mget (fillmap (frags tag p)) x = if x =? tag then [p] else [].
+Proof.
+  intros Hp x. destruct (fold_frags tag p [] [] Hp (or_introl eq_refl)) as (A & _ & _). unfold fillmap.
+  etransitivity; [apply A|]. destruct (x =? tag); reflexivity.
+Qed.
+
+(** a tagged list *)
+Fixpoint lpay (fs : fields) (l : vlist) : list bytes :=
+  match l with LNil => [] | LCons e r => enc_vals K fs e :: lpay fs r end.
+
+Lemma fold_list tag fs : forall l first m s, okl fs l = true ->
+  (first = true -> mget m tag = [] \/ mem tag s = false) ->
+  forall x, mget (fst (fold_left fstep (it_list tag fs l first) (m, s))) x = if x =? tag then mget m tag ++ lpay fs l else mget m x.
+Proof.
+  induction l as [|e r IH]; intros first m s Hok Hf x.
+  - cbn [it_list lpay fold_left fst]. rewrite app_nil_r. destruct (N.eqb_spec x tag) as [->|]; reflexivity.
+  - cbn [lpay]. cbn [okl] in Hok. apply andb_true_iff in Hok. destruct Hok as [H12 H3]. apply andb_true_iff in H12. destruct H12 as [H1 H2].
+    assert (Hp : enc_vals K fs e <> []) by (destruct (enc_vals K fs e); [discriminate|discriminate]).
+    assert (Hgen : forall s0, (mget m tag = [] \/ mem tag s0 = false) ->
+              mget (fst (fold_left fstep (frags tag (enc_vals K fs e) ++ it_list tag fs r false) (m, s0))) x =
+              (if x =? tag then mget m tag ++ enc_vals K fs e :: lpay fs r else mget m x)).
+    { intros s0 Hnew. rewrite fold_left_app.
+      destruct (fold_frags tag (enc_vals K fs e) m s0 Hp Hnew) as (A & B & C). cbv zeta in A, B, C.
+      rewrite (surjective_pairing (fold_left fstep (frags tag (enc_vals K fs e)) (m, s0))).
+      rewrite (IH false _ _ H3 ltac:(discriminate) x). rewrite !A. rewrite N.eqb_refl.
+      destruct (N.eqb_spec x tag) as [->|Ne]; [rewrite <- app_assoc; reflexivity|reflexivity]. }
+    rewrite it_list_cons. destruct first.
+    + cbn [app]. apply Hgen. apply Hf. reflexivity.
+    + cbn [app fold_left fstep]. apply Hgen. right. reflexivity.
+Qed.
+
+(** an inline list of scalar-only elements *)
+Fixpoint pfield (fs : fields) (e : vals) (x : N) : list bytes :=
+  match fs, e with
+  | FCons t ty fr, VCons v vr => (if x =? t then [payload ty v] else []) ++ pfield fr vr x
+  | _, _ => []
+  end.
+Fixpoint pcol (fs : fields) (l : vlist) (x : N) : list bytes :=
+  match l with LNil => [] | LCons e r => pfield fs e x ++ pcol fs r x end.
+
+Lemma fold_elem : forall fs e m s, scalars_only fs = true -> full fs e = true -> NoDup (own_tags fs) ->
+  (forall t, In t (own_tags fs) -> mem t s = false) ->
+  (forall x, mget (fst (fold_left fstep (it_vals fs e) (m, s))) x = mget m x ++ pfield fs e x) /\
+  (forall y, ~ In y (own_tags fs) -> mem y (snd (fold_left fstep (it_vals fs e) (m, s))) = mem y s).
+Proof.
+  induction fs as [|t ty fr IH]; intros e m s Hs Hfull Hnd Hseen.
+  - destruct e; cbn [it_vals fold_left fst snd pfield]; (split; [intros; rewrite app_nil_r; reflexivity|reflexivity]).
+  - destruct e as [|v vr]; [cbn [it_vals fold_left fst snd pfield]; split; [intros; rewrite app_nil_r; reflexivity|reflexivity]|].
+    cbn [scalars_only] in Hs. apply andb_true_iff in Hs. destruct Hs as [Hs1 Hs2].
+    cbn [full] in Hfull. apply andb_true_iff in Hfull. destruct Hfull as [Hf1 Hf2].
+    cbn [own_tags] in Hnd, Hseen. inversion Hnd as [|? ? Hnt Hnd']; subst.
+    rewrite it_vals_cons, fold_left_app, (it_val_scalar t ty v Hs1).
+    assert (Hp : payload ty v <> []) by (destruct (payload ty v); [discriminate|discriminate]).
+    destruct (fold_frags t (payload ty v) m s Hp (or_intror (Hseen t (or_introl eq_refl)))) as (A & B & C). cbv zeta in A, B, C.
+    rewrite (surjective_pairing (fold_left fstep (frags t (payload ty v)) (m, s))).
+    destruct (IH vr (fst (fold_left fstep (frags t (payload ty v)) (m, s))) (snd (fold_left fstep (frags t (payload ty v)) (m, s))) Hs2 Hf2 Hnd') as (A2 & C2).
+    { intros y Hy. rewrite C; [apply Hseen; right; exact Hy|intros ->; exact (Hnt Hy)]. }
+    split.
+    + intros x. rewrite A2, A. cbn [pfield]. destruct (N.eqb_spec x t) as [->|Ne]; [rewrite <- app_assoc; reflexivity|reflexivity].
+    + intros y Hy. rewrite C2 by (intros Hi; apply Hy; right; exact Hi). apply C. intros ->. apply Hy. left. reflexivity.
+Qed.
+
+Lemma fold_inline fs : scalars_only fs = true -> NoDup (own_tags fs) -> forall l first m s, okil fs l = true ->
+  (first = true -> forall t, In t (own_tags fs) -> mem t s = false) ->
+  forall x, mget (fst (fold_left fstep (it_inline fs l first) (m, s))) x = mget m x ++ pcol fs l x.
+Proof.
+  intros Hs Hnd. induction l as [|e r IH]; intros first m s Hok Hf x.
+  - cbn [it_inline fold_left fst pcol]. rewrite app_nil_r. reflexivity.
+  - cbn [okil] in Hok. apply andb_true_iff in Hok. destruct Hok as [H123 H4]. apply andb_true_iff in H123. destruct H123 as [H12 H3].
+    apply andb_true_iff in H12. destruct H12 as [H1 H2].
+    assert (Hgen : forall s0, (forall t, In t (own_tags fs) -> mem t s0 = false) ->
+              mget (fst (fold_left fstep (it_vals fs e ++ it_inline fs r false) (m, s0))) x = mget m x ++ pfield fs e x ++ pcol fs r x).
+    { intros s0 Hseen. rewrite fold_left_app. destruct (fold_elem fs e m s0 Hs H2 Hnd Hseen) as (A & _).
+      rewrite (surjective_pairing (fold_left fstep (it_vals fs e) (m, s0))).
+      rewrite (IH false _ _ H4 ltac:(discriminate) x), A. rewrite app_assoc. reflexivity. }
+    rewrite it_inline_cons. cbn [pcol]. destruct first.
+    + cbn [app]. apply Hgen. apply Hf. reflexivity.
+    + cbn [app fold_left fstep]. apply Hgen. reflexivity.
+Qed.
+
+(** ** 10. the decoder loops on a reader described by columns *)
+Lemma pop_buckets m t b m' : pop m t = Some (b, m') -> (buckets m' < buckets m)%nat.
+Proof.
+  unfold pop. pose proof (buckets_mdel m t) as Hb. destruct (mget m t) as [|x rest] eqn:E; [discriminate|].
+  intros H. injection H as <- <-. pose proof (buckets_mset m t rest). cbn [length] in Hb. lia.
+Qed.
+Lemma buckets_ge_mget m t : (length (mget m t) <= buckets m)%nat.
+Proof. pose proof (buckets_mdel m t). lia. Qed.
+
+Fixpoint vapp (a : vlist) (b : vlist) : vlist :=
+  match b with LNil => a | LCons e r => vapp (snoc a e) r end.
+Fixpoint all_vl (P : vals -> Prop) (l : vlist) : Prop :=
+  match l with LNil => True | LCons e r => P e /\ all_vl P r end.
+Fixpoint vlen (l : vlist) : nat := match l with LNil => O | LCons _ r => S (vlen r) end.
+
+Definition elem_ok (fs : fields) (e : vals) : Prop :=
+  dec_fields K fs (fillmap (it_vals fs e)) = Ok (norm_vals fs e, [], false).
+
+Lemma read_enc fs e : okvs fs e = true -> read K (enc_vals K fs e) = ROk (fillmap (it_vals fs e)).
+Proof. intros H. destruct (proj1 (proj2 enc_flat) e fs H) as [E S]. rewrite E. apply read_flat. exact S. Qed.
+
+Lemma list_loop_spec tag fs : forall l acc m C M fuel,
+  cols m [tag] C M -> C tag = lpay fs l -> okl fs l = true -> all_vl (elem_ok fs) l -> (vlen l < fuel)%nat ->
+  list_loop K (dec_fields K fs) tag fuel acc m = Ok (vapp acc (norm_list fs l), M, false).
+Proof.
+  induction l as [|e r IH]; intros acc m C M fuel Hc HC Hok Hall Hf; (destruct fuel as [|f]; [cbn [vlen] in Hf; lia|]); cbn [list_loop].
+  - cbn [lpay] in HC. rewrite (pop_cols_none m [tag] C M tag Hc (or_introl eq_refl) HC).
+    cbn [norm_list vapp]. f_equal. f_equal. f_equal. apply (cols_done m [tag] C M Hc). intros t [<-|[]]. exact HC.
+  - cbn [lpay] in HC. cbn [okl] in Hok. apply andb_true_iff in Hok. destruct Hok as [H12 H3]. apply andb_true_iff in H12. destruct H12 as [H1 H2].
+    destruct Hall as [He Hr].
+    destruct (pop_cols m [tag] C M tag _ _ Hc (or_introl eq_refl) HC) as [-> Hc1].
+    rewrite (read_enc fs e H1). unfold elem_ok in He. rewrite He. cbn [norm_list vapp].
+    destruct (meof (mset m tag (lpay fs r))) eqn:Em.
+    + (* the reader is empty: this was the last element *)
+      destruct (mset m tag (lpay fs r)) as [|p m1] eqn:E1; [|discriminate].
+      destruct Hc1 as [Hg Hrest _]. cbn [mrest filter] in Hrest. subst M.
+      specialize (Hg tag (or_introl eq_refl)). cbn [mget] in Hg. rewrite N.eqb_refl in Hg.
+      destruct r as [|e2 r2]; [reflexivity|cbn [lpay] in Hg; discriminate].
+    + apply (IH (snoc acc (norm_vals fs e)) _ (fun x => if x =? tag then lpay fs r else C x) M f Hc1); auto.
+      * rewrite N.eqb_refl. reflexivity.
+      * cbn [vlen] in Hf. lia.
+Qed.
+
+Lemma pfield_notin fs e x : ~ In x (own_tags fs) -> pfield fs e x = [].
+Proof.
+  revert e. induction fs as [|t ty fr IH]; intros e H; [destruct e; reflexivity|]. destruct e as [|v vr]; [reflexivity|].
+  cbn [pfield]. cbn [own_tags] in H. destruct (N.eqb_spec x t) as [->|Ne]; [exfalso; apply H; left; reflexivity|].
+  cbn [app]. apply IH. intros Hi. apply H. right. exact Hi.
+Qed.
+
+Lemma zero_of_scalar t : is_scalar t = true -> zero_of t = zero_scalar t.
+Proof. destruct t; try discriminate; reflexivity. Qed.
+
+Lemma dec_fields_scalar tag t fr m : is_scalar t = true ->
+  dec_fields K (FCons tag t fr) m =
+  match scalar_field K t m tag with
+  | Ok (Some v, m') => cont v (dec_fields K fr m')
+  | Ok (None, m') => Ok (VCons (zero_of t) (zeros fr), m', true)
+  | Err c => Err c | Panic => Panic | OutOfFuel => OutOfFuel
+  end.
+Proof. intros H. destruct t; try discriminate; reflexivity. Qed.
+
+Lemma norm_val_scalar t v : is_scalar t = true -> norm_val t v = norm_scalar t v.
+Proof. intros H. destruct t; try discriminate; destruct v; reflexivity. Qed.
+Lemma okv_scalar t v : is_scalar t = true -> okv t v = ok_scalar t v.
+Proof. intros H. destruct t; try discriminate; destruct v; reflexivity. Qed.
+
+(** one element of an inline list: every field pops the head of its column *)
+Lemma elem_decode ts M : forall (fs : fields) (e : vals) (m : rmap) (C R : N -> list bytes), scalars_only fs = true -> okvs fs e = true -> full fs e = true ->
+  NoDup (own_tags fs) -> incl (own_tags fs) ts -> cols m ts C M ->
+  (forall x, In x ts -> C x = pfield fs e x ++ R x) ->
+  exists m', dec_fields K fs m = Ok (norm_vals fs e, m', false) /\ cols m' ts R M /\
+             (fs <> FNil -> (buckets m' < buckets m)%nat) /\ (buckets m' <= buckets m)%nat.
+Proof.
+  induction fs as [|t ty fr IH]; intros e m C R Hs Hok Hfull Hnd Hin Hc HC.
+  - destruct e; [|discriminate]. exists m. cbn [dec_fields norm_vals]. split; [reflexivity|]. split; [|split; [congruence|lia]].
+    apply (cols_ext m ts C R M Hc). intros x Hx. rewrite (HC x Hx). reflexivity.
+  - destruct e as [|v vr]; [discriminate|].
+    cbn [scalars_only] in Hs. apply andb_true_iff in Hs. destruct Hs as [Hs1 Hs2].
+    cbn [okvs] in Hok. apply andb_true_iff in Hok. destruct Hok as [Ho1 Ho2].
+    cbn [full] in Hfull. apply andb_true_iff in Hfull. destruct Hfull as [Hf1 Hf2].
+    cbn [own_tags] in Hnd, Hin. inversion Hnd as [|? ? Hnt Hnd']; subst.
+    assert (Ht : In t ts) by (apply Hin; left; reflexivity).
+    assert (Hp : payload ty v <> []) by (destruct (payload ty v); [discriminate|discriminate]).
+    assert (HCt : C t = payload ty v :: R t).
+    { rewrite (HC t Ht). cbn [pfield]. rewrite N.eqb_refl, (pfield_notin fr vr t Hnt). reflexivity. }
+    rewrite okv_scalar in Ho1 by exact Hs1.
+    destruct (scalar_decode m ts C M t ty v (R t) Hs1 Ho1 Hc Ht Hp HCt) as [Hsf Hc1].
+    destruct (pop_cols m ts C M t _ _ Hc Ht HCt) as [Hpop _]. pose proof (pop_buckets _ _ _ _ Hpop) as Hlt.
+    destruct (IH vr (mset m t (R t)) (fun x => if x =? t then R t else C x) R Hs2 Ho2 Hf2 Hnd') as (m' & Hd & Hc' & _ & Hle).
+    + intros x Hx. apply Hin. right. exact Hx.
+    + exact Hc1.
+    + intros x Hx. destruct (N.eqb_spec x t) as [->|Ne]; [rewrite (pfield_notin fr vr t Hnt); reflexivity|].
+      rewrite (HC x Hx). cbn [pfield]. destruct (N.eqb_spec x t); [congruence|reflexivity].
+    + exists m'. rewrite dec_fields_scalar by exact Hs1. rewrite Hsf, Hd. cbn [cont norm_vals].
+      rewrite norm_val_scalar by exact Hs1. split; [reflexivity|]. split; [exact Hc'|split; [intros _; lia|lia]].
+Qed.
+
+Lemma elem_absent ts M : forall (fs : fields) (m : rmap) (C : N -> list bytes), scalars_only fs = true -> incl (own_tags fs) ts -> cols m ts C M ->
+  (forall x, In x (own_tags fs) -> C x = []) -> dec_fields K fs m = Ok (zeros fs, m, false).
+Proof.
+  induction fs as [|t ty fr IH]; intros m C Hs Hin Hc HC; [reflexivity|].
+  cbn [scalars_only] in Hs. apply andb_true_iff in Hs. destruct Hs as [Hs1 Hs2]. cbn [own_tags] in Hin, HC.
+  rewrite dec_fields_scalar by exact Hs1.
+  rewrite (scalar_decode_absent m ts C M t ty Hs1 Hc (Hin t (or_introl eq_refl)) (HC t (or_introl eq_refl))).
+  rewrite (IH m C Hs2); [cbn [cont zeros]; rewrite zero_of_scalar by exact Hs1; reflexivity| |exact Hc|].
+  - intros x Hx. apply Hin. right. exact Hx.
+  - intros x Hx. apply HC. right. exact Hx.
+Qed.
+
+Lemma pcol_head t ty fr e r : full (FCons t ty fr) e = true -> okvs (FCons t ty fr) e = true ->
+  pcol (FCons t ty fr) (LCons e r) t <> [].
+Proof.
+  intros Hf Hok. destruct e as [|v vr]; [discriminate|]. cbn [pcol pfield]. rewrite N.eqb_refl. discriminate.
+Qed.
+
+Lemma inline_loop_spec fs : scalars_only fs = true -> NoDup (own_tags fs) -> forall l acc m C M fuel,
+  cols m (own_tags fs) C M -> (forall x, In x (own_tags fs) -> C x = pcol fs l x) -> okil fs l = true -> (vlen l < fuel)%nat ->
+  inline_loop K (dec_fields K fs) (empty_vals fs) fuel acc m = Ok (vapp acc (norm_list fs l), M, false).
+Proof.
+  intros Hs Hnd. induction l as [|e r IH]; intros acc m C M fuel Hc HC Hok Hf; (destruct fuel as [|f]; [cbn [vlen] in Hf; lia|]); cbn [inline_loop].
+  - rewrite (elem_absent (own_tags fs) M fs m C Hs (incl_refl _) Hc) by (intros x Hx; rewrite (HC x Hx); reflexivity).
+    cbn [k_inline_fixed fixed_knobs]. rewrite Nat.eqb_refl. cbn [norm_list vapp]. f_equal. f_equal. f_equal.
+    apply (cols_done m (own_tags fs) C M Hc). intros t Ht. rewrite (HC t Ht). reflexivity.
+  - cbn [okil] in Hok. apply andb_true_iff in Hok. destruct Hok as [H123 H4]. apply andb_true_iff in H123. destruct H123 as [H12 H3].
+    apply andb_true_iff in H12. destruct H12 as [H1 H2].
+    destruct (elem_decode (own_tags fs) M fs e m C (pcol fs r) Hs H1 H2 Hnd (incl_refl _) Hc) as (m1 & Hd & Hc1 & Hlt & _).
+    { intros x Hx. rewrite (HC x Hx). reflexivity. }
+    rewrite Hd. cbn [k_inline_fixed fixed_knobs].
+    assert (Hne : fs <> FNil) by (intros ->; destruct e; discriminate).
+    specialize (Hlt Hne). destruct (Nat.eqb_spec (buckets m1) (buckets m)) as [E|_]; [lia|].
+    cbn [norm_list vapp]. destruct (meof m1) eqn:Em.
+    + destruct m1 as [|p m1']; [|discriminate]. destruct Hc1 as [Hg Hrest _]. cbn [mrest filter] in Hrest. subst M.
+      destruct r as [|e2 r2]; [reflexivity|]. exfalso.
+      destruct fs as [|t ty fr]; [congruence|].
+      cbn [okil] in H4. apply andb_true_iff in H4. destruct H4 as [H4 _]. apply andb_true_iff in H4. destruct H4 as [H4 _].
+      apply andb_true_iff in H4. destruct H4 as [Ha Hb].
+      apply (pcol_head t ty fr e2 r2 Hb Ha). rewrite <- (Hg t (or_introl eq_refl)). reflexivity.
+    + apply (IH (snoc acc (norm_vals fs e)) m1 (pcol fs r) M f Hc1); auto. cbn [vlen] in Hf. lia.
+Qed.
+
+(** ** 11. assembly *)
+Lemma write_bytes_nil tag p : write_bytes tag p = [] -> p = [].
+Proof.
+  unfold write_bytes. destruct p as [|b p']; [reflexivity|]. rewrite chunks_step by (try lia; discriminate).
+  cbn [map concat item app]. discriminate.
+Qed.
+
+Lemma enc_val_list tag fs l : enc_val K tag (TList fs) (VList l) = enc_list K tag fs l true.
+Proof. reflexivity. Qed.
+Lemma enc_val_inline tag fs l : enc_val K tag (TInline fs) (VList l) = enc_inline K fs l true.
+Proof. reflexivity. Qed.
+Lemma enc_val_struct tag fs vs : enc_val K tag (TStruct fs) (VStruct vs) = write_bytes tag (enc_vals K fs vs).
+Proof. reflexivity. Qed.
+
+Lemma enc_empty_zero :
+  (forall v tag t, okv t v = true -> enc_val K tag t v = [] -> norm_val t v = zero_of t) /\
+  (forall vs fs, okvs fs vs = true -> enc_vals K fs vs = [] -> norm_vals fs vs = zeros fs) /\
+  (forall l : vlist, True).
+Proof.
+  apply value_mutind; try (intros; exact I).
+  - intros z tag t Hok He. destruct t; try discriminate; cbn [enc_val k_i64_width k_f32_written fixed_knobs] in He; try discriminate;
+      apply write_bytes_nil in He; discriminate.
+  - intros b tag t Hok He. destruct t; try discriminate.
+  - intros b tag t Hok He. destruct t; try discriminate; cbn [enc_val] in He; apply write_bytes_nil in He; subst; reflexivity.
+  - intros vs IH tag t Hok He. destruct t; try discriminate. rewrite enc_val_struct in He. apply write_bytes_nil in He.
+    cbn [norm_val zero_of okv] in *. rewrite (IH fs Hok He). reflexivity.
+  - intros l _ tag t Hok He. destruct t; try discriminate; cbn [okv norm_val zero_of] in *.
+    + rewrite enc_val_list in He. destruct l as [|e r]; [reflexivity|]. exfalso. rewrite enc_list_cons in He. cbn [app] in He.
+      apply app_eq_nil in He. destruct He as [He _]. apply write_bytes_nil in He.
+      cbn [okl] in Hok. rewrite He in Hok. cbn in Hok. rewrite andb_false_r in Hok. discriminate.
+    + rewrite enc_val_inline in He. destruct l as [|e r]; [reflexivity|]. exfalso. rewrite enc_inline_cons in He. cbn [app] in He.
+      apply app_eq_nil in He. destruct He as [He _].
+      cbn [okil] in Hok. rewrite He in Hok. cbn in Hok. rewrite andb_false_r in Hok. discriminate.
+  - intros fs Hok _. destruct fs; [reflexivity|discriminate].
+  - intros v IHv vr IHr fs Hok He. destruct fs as [|tag t fr]; [discriminate|]. cbn [okvs] in Hok. apply andb_true_iff in Hok. destruct Hok as [H1 H2].
+    rewrite enc_vals_cons in He. apply app_eq_nil in He. destruct He as [E1 E2]. cbn [norm_vals zeros].
+    rewrite (IHv tag t H1 E1), (IHr fr H2 E2). reflexivity.
+Qed.
+
+Fixpoint vappend (a b : vlist) : vlist := match a with LNil => b | LCons e r => LCons e (vappend r b) end.
+Lemma vappend_snoc a e b : vappend (snoc a e) b = vappend a (LCons e b).
+Proof. induction a as [|x a IH]; [reflexivity|]. cbn [snoc vappend]. rewrite IH. reflexivity. Qed.
+Lemma vapp_vappend : forall b a, vapp a b = vappend a b.
+Proof.
+  induction b as [|e r IH]; intros a; cbn [vapp].
+  - induction a as [|x a IHa]; [reflexivity|]. cbn [vappend]. rewrite <- IHa. reflexivity.
+  - rewrite IH, vappend_snoc. reflexivity.
+Qed.
+Lemma vapp_nil b : vapp LNil b = b.
+Proof. rewrite vapp_vappend. reflexivity. Qed.
+
+Lemma field_tags_cons tag t fr : field_tags (FCons tag t fr) = ftags tag t ++ field_tags fr.
+Proof. destruct t; reflexivity. Qed.
+
+Lemma nodupb_NoDup l : nodupb l = true -> NoDup l.
+Proof.
+  induction l as [|x r IH]; intros H; [constructor|]. cbn [nodupb] in H. apply andb_true_iff in H. destruct H as [H1 H2].
+  constructor; [|apply IH; exact H2]. intros Hi. apply negb_true_iff in H1.
+  assert (E : existsb (N.eqb x) r = true) by (apply existsb_exists; exists x; split; [exact Hi|apply N.eqb_refl]). congruence.
+Qed.
+Lemma NoDup_app_l {A} (a b : list A) : NoDup (a ++ b) -> NoDup a /\ NoDup b /\ (forall x, In x a -> ~ In x b).
+Proof.
+  induction a as [|x a IH]; cbn [app]; intros H; [repeat split; [constructor|exact H|intros ? []]|].
+  inversion H as [|? ? Hn Hr]; subst. destruct (IH Hr) as (A1 & B1 & D1). split; [|split; [exact B1|]].
+  - constructor; [intros Hi; apply Hn; apply in_or_app; left; exact Hi|exact A1].
+  - intros y [<-|Hy] Hb; [apply Hn; apply in_or_app; right; exact Hb|exact (D1 y Hy Hb)].
+Qed.
+
+Lemma wf_fields_cons tag t fr : wf_fields (FCons tag t fr) = true ->
+  wf_ty t = true /\ wf_fields fr = true /\ NoDup (ftags tag t) /\ (forall x, In x (ftags tag t) -> ~ In x (field_tags fr)).
+Proof.
+  unfold wf_fields, tags_ok. intros H. apply andb_true_iff in H. destruct H as [H12 H3]. apply andb_true_iff in H12. destruct H12 as [H1 H2].
+  cbn [wf_each] in H3. apply andb_true_iff in H3. destruct H3 as [W1 W2].
+  rewrite field_tags_cons in H1, H2. apply nodupb_NoDup in H1. destruct (NoDup_app_l _ _ H1) as (A & B & D).
+  rewrite forallb_app in H2. apply andb_true_iff in H2. destruct H2 as [_ H2].
+  split; [exact W1|]. split; [|split; [exact A|exact D]].
+  apply andb_true_iff. split; [apply andb_true_iff; split; [|exact H2]|exact W2].
+  clear -B. induction (field_tags fr) as [|x r IH]; [reflexivity|]. inversion B; subst. cbn [nodupb]. rewrite IH by assumption.
+  rewrite andb_true_r. apply negb_true_iff. destruct (existsb (N.eqb x) r) eqn:E; [|reflexivity].
+  apply existsb_exists in E. destruct E as (y & Hy & Ey). apply N.eqb_eq in Ey. subst. contradiction.
+Qed.
+
+Lemma wf_each_scalars fs : scalars_only fs = true -> wf_each fs = true.
+Proof.
+  induction fs as [|tg t r IH]; [reflexivity|]. cbn [scalars_only]. intros H. apply andb_true_iff in H. destruct H as [A B].
+  cbn [wf_each]. rewrite (IH B). destruct t; try discriminate; reflexivity.
+Qed.
+
+Lemma cols_absent M ts : no_empty M -> (forall x, In x ts -> ~ In x (keys M)) -> cols M ts (fun _ => []) M.
+Proof.
+  intros Hn Hk. constructor; [intros t Ht; apply mget_notin, Hk, Ht|apply mrest_none; exact Hk|exact Hn].
+Qed.
+
+Lemma vlen_lpay fs l : length (lpay fs l) = vlen l.
+Proof. induction l; cbn [lpay vlen length]; auto. Qed.
+Lemma vlen_pcol t ty fr l : ~ In t (own_tags fr) -> okil (FCons t ty fr) l = true -> length (pcol (FCons t ty fr) l t) = vlen l.
+Proof.
+  intros Hnt. induction l as [|e r IH]; [reflexivity|]. intros H. cbn [okil] in H. apply andb_true_iff in H. destruct H as [H123 H4].
+  apply andb_true_iff in H123. destruct H123 as [H12 _]. apply andb_true_iff in H12. destruct H12 as [H1 _].
+  destruct e as [|v vr]; [discriminate|]. cbn [pcol pfield vlen]. rewrite N.eqb_refl. cbn [app length]. rewrite app_length.
+  rewrite (pfield_notin fr vr t Hnt). cbn [length]. rewrite (IH H4). reflexivity.
+Qed.
+
+(** decoding one field from [M ++ F], where F is the map of the field's items, consumes F *)
+Definition field_ok (v : val) : Prop := forall tag t fr M,
+  wf_ty t = true -> okv t v = true -> NoDup (ftags tag t) -> no_empty M -> (forall x, In x (ftags tag t) -> ~ In x (keys M)) ->
+  dec_fields K (FCons tag t fr) (M ++ fillmap (it_val tag t v)) = cont (norm_val t v) (dec_fields K fr M).
+
+Lemma frags_keys tag p : forall x, In x (keys (fillmap (frags tag p))) -> In x [tag].
+Proof. intros x Hx. left. symmetry. apply (touch_frags_incl tag p). apply fillmap_keys. exact Hx. Qed.
+
+Lemma scalar_field_ok2 v : forall tag t fr M, is_scalar t = true -> ok_scalar t v = true -> no_empty M -> ~ In tag (keys M) ->
+  dec_fields K (FCons tag t fr) (M ++ fillmap (frags tag (payload t v))) = cont (norm_scalar t v) (dec_fields K fr M).
+Proof.
+  intros tag t fr M Hs Hok HM Hk. rewrite dec_fields_scalar by exact Hs.
+  destruct (payload t v) as [|b p'] eqn:Ep.
+  - destruct (payload_nonempty t v Hs Hok Ep) as [Ht ->]. cbn [frags]. unfold fillmap. cbn [chunks chunks_fuel length map fold_left fst]. rewrite app_nil_r.
+    rewrite (scalar_decode_absent M [tag] (fun _ => []) M tag t Hs (cols_absent M [tag] HM ltac:(intros x [<-|[]]; exact Hk)) (or_introl eq_refl) eq_refl).
+    destruct Ht as [-> | ->]; reflexivity.
+  - rewrite <- Ep. assert (Hp : payload t v <> []) by (rewrite Ep; discriminate).
+    pose proof (cols_of_app M (fillmap (frags tag (payload t v))) [tag] HM (fillmap_no_empty _) (frags_keys tag _) ltac:(intros x [<-|[]]; exact Hk)) as Hc.
+    assert (HC : mget (fillmap (frags tag (payload t v))) tag = [payload t v]) by (rewrite fillmap_frags by exact Hp; rewrite N.eqb_refl; reflexivity).
+    destruct (scalar_decode _ [tag] _ M tag t v [] Hs Hok Hc (or_introl eq_refl) Hp HC) as [Hsf Hc'].
+    rewrite Hsf. f_equal. f_equal. apply (cols_done _ _ _ _ Hc'). intros x [<-|[]]. rewrite N.eqb_refl. reflexivity.
+Qed.
+
+Theorem roundtrip_all :
+  (forall v, field_ok v) /\
+  (forall vs fs, wf_fields fs = true -> okvs fs vs = true -> elem_ok fs vs) /\
+  (forall l fs, wf_fields fs = true -> okl fs l = true -> all_vl (elem_ok fs) l).
+Proof.
+  apply value_mutind.
+  - (* VNum *) intros z tag t fr M Hwf Hok Hnd HM Hk. destruct t; try discriminate; cbn [okv it_val norm_val] in *;
+      apply scalar_field_ok2; auto; apply Hk; left; reflexivity.
+  - intros b tag t fr M Hwf Hok Hnd HM Hk. destruct t; try discriminate; cbn [okv it_val norm_val] in *;
+      apply scalar_field_ok2; auto; apply Hk; left; reflexivity.
+  - intros b tag t fr M Hwf Hok Hnd HM Hk. destruct t; try discriminate; cbn [okv it_val norm_val] in *;
+      apply scalar_field_ok2; auto; apply Hk; left; reflexivity.
+  - (* VStruct *) intros vs IH tag t fr M Hwf Hok Hnd HM Hk. destruct t; try discriminate. cbn [okv it_val norm_val ftags wf_ty] in *.
+    assert (Hkt : ~ In tag (keys M)) by (apply Hk; left; reflexivity).
+    destruct (enc_vals K fs vs) as [|b p'] eqn:Ep.
+    + cbn [frags]. unfold fillmap. cbn [chunks chunks_fuel length map fold_left fst]. rewrite app_nil_r.
+      cbn [dec_fields]. rewrite (pop_cols_none M [tag] (fun _ => []) M tag (cols_absent M [tag] HM ltac:(intros x [<-|[]]; exact Hkt)) (or_introl eq_refl) eq_refl).
+      rewrite (proj1 (proj2 enc_empty_zero) vs fs Hok Ep). reflexivity.
+    + rewrite <- Ep. assert (Hp : enc_vals K fs vs <> []) by (rewrite Ep; discriminate).
+      pose proof (cols_of_app M (fillmap (frags tag (enc_vals K fs vs))) [tag] HM (fillmap_no_empty _) (frags_keys tag _) ltac:(intros x [<-|[]]; exact Hkt)) as Hc.
+      assert (HC : mget (fillmap (frags tag (enc_vals K fs vs))) tag = [enc_vals K fs vs]) by (rewrite fillmap_frags by exact Hp; rewrite N.eqb_refl; reflexivity).
+      destruct (pop_cols _ [tag] _ M tag _ _ Hc (or_introl eq_refl) HC) as [Hpop Hc'].
+      cbn [dec_fields]. rewrite Hpop, (read_enc fs vs Hok).
+      assert (Hwf' : wf_fields fs = true) by exact Hwf.
+      pose proof (IH fs Hwf' Hok) as He. unfold elem_ok in He. rewrite He.
+      f_equal. f_equal. apply (cols_done _ _ _ _ Hc'). intros x [<-|[]]. rewrite N.eqb_refl. reflexivity.
+  - (* VList *) intros l IH tag t fr M Hwf Hok Hnd HM Hk. destruct t; try discriminate; cbn [okv it_val norm_val ftags wf_ty] in *.
+    + (* tagged list *)
+      assert (Hkt : ~ In tag (keys M)) by (apply Hk; left; reflexivity).
+      assert (Hwe : wf_each fs = true) by (apply andb_true_iff in Hwf; apply Hwf).
+      set (F := fillmap (it_list tag fs l true)).
+      assert (HF : forall x, mget F x = if x =? tag then lpay fs l else []).
+      { intros x. unfold F, fillmap. etransitivity; [apply (fold_list tag fs l true [] [] Hok ltac:(intros _; left; reflexivity) x)|]. destruct (x =? tag); reflexivity. }
+      assert (HkF : forall x, In x (keys F) -> In x [tag]).
+      { intros x Hx. apply fillmap_keys in Hx. exact (proj1 (proj2 (proj2 touch_values) l fs Hwe) tag true x Hx). }
+      pose proof (cols_of_app M F [tag] HM (fillmap_no_empty _) HkF ltac:(intros x [<-|[]]; exact Hkt)) as Hc.
+      assert (Hfuel : (vlen l < S (buckets (M ++ F)))%nat).
+      { pose proof (buckets_ge_mget (M ++ F) tag) as Hb. rewrite (c_get _ _ _ _ Hc tag (or_introl eq_refl)), HF, N.eqb_refl, vlen_lpay in Hb. lia. }
+      cbn [dec_fields].
+      rewrite (list_loop_spec tag fs l LNil (M ++ F) (mget F) M _ Hc ltac:(rewrite HF, N.eqb_refl; reflexivity) Hok (IH fs Hwf Hok) Hfuel).
+      rewrite vapp_nil. reflexivity.
+    + (* inline list *)
+      assert (Hwe : wf_each fs = true) by (apply wf_each_scalars; exact Hwf).
+      set (F := fillmap (it_inline fs l true)).
+      assert (HF : forall x, mget F x = pcol fs l x).
+      { intros x. unfold F, fillmap. etransitivity; [apply (fold_inline fs Hwf Hnd l true [] [] Hok ltac:(intros _ ? _; reflexivity) x)|]. reflexivity. }
+      assert (HkF : forall x, In x (keys F) -> In x (own_tags fs)).
+      { intros x Hx. apply fillmap_keys in Hx. rewrite <- (field_tags_scalars fs Hwf). exact (proj2 (proj2 (proj2 touch_values) l fs Hwe) true x Hx). }
+      pose proof (cols_of_app M F (own_tags fs) HM (fillmap_no_empty _) HkF Hk) as Hc.
+      assert (Hfuel : (vlen l < S (buckets (M ++ F)))%nat).
+      { destruct fs as [|t0 ty0 fr0].
+        - destruct l as [|e r]; [cbn [vlen]; lia|]. cbn [okil] in Hok. destruct e; cbn in Hok; discriminate.
+        - cbn [own_tags] in Hnd. inversion Hnd as [|? ? Hnt _]; subst.
+          pose proof (buckets_ge_mget (M ++ F) t0) as Hb. rewrite (c_get _ _ _ _ Hc t0 (or_introl eq_refl)), HF, (vlen_pcol t0 ty0 fr0 l Hnt Hok) in Hb. lia. }
+      cbn [dec_fields].
+      rewrite (inline_loop_spec fs Hwf Hnd l LNil (M ++ F) (mget F) M _ Hc ltac:(intros x _; apply HF) Hok Hfuel).
+      rewrite vapp_nil. reflexivity.
+  - (* VNil *) intros fs Hwf Hok. destruct fs; [reflexivity|discriminate].
+  - (* VCons *) intros v IHv vr IHr fs Hwf Hok. destruct fs as [|tag t fr]; [discriminate|].
+    cbn [okvs] in Hok. apply andb_true_iff in Hok. destruct Hok as [H1 H2].
+    destruct (wf_fields_cons tag t fr Hwf) as (W1 & W2 & Hnd & Hdis).
+    assert (Hwe : wf_each fr = true) by (apply andb_true_iff in W2; apply W2).
+    unfold elem_ok. rewrite it_vals_cons.
+    assert (Htv : incl (touch (it_val tag t v)) (ftags tag t)) by (apply (proj1 touch_values); exact W1).
+    assert (Htr : incl (touch (it_vals fr vr)) (field_tags fr)) by (apply (proj1 (proj2 touch_values)); exact Hwe).
+    rewrite fillmap_app by (intros x Hx Hx2; exact (Hdis x (Htv x Hx2) (Htr x Hx))).
+    rewrite (IHv tag t fr (fillmap (it_vals fr vr)) W1 H1 Hnd (fillmap_no_empty _)).
+    + pose proof (IHr fr W2 H2) as He. unfold elem_ok in He. rewrite He. reflexivity.
+    + intros x Hx Hk. apply fillmap_keys in Hk. exact (Hdis x Hx (Htr x Hk)).
+  - (* LNil *) intros fs _ _. exact I.
+  - (* LCons *) intros e IHe r IHr fs Hwf Hok. cbn [okl] in Hok. apply andb_true_iff in Hok. destruct Hok as [H12 H3].
+    apply andb_true_iff in H12. destruct H12 as [H1 _]. split; [apply IHe; assumption|apply IHr; assumption].
+Qed.
+
+(** C17 (round trip): for EVERY well-formed struct type and EVERY well-typed value inside the
+    stated value class, Unmarshal (Marshal v) = v (a signalling NaN comes back quiet) *)
+Theorem roundtrip fs vs : wf_fields fs = true -> okvs fs vs = true ->
+  unmarshal K fs (marshal K fs vs) = Ok (norm_vals fs vs).
+Proof.
+  intros Hwf Hok. unfold unmarshal, marshal. rewrite (read_enc fs vs Hok).
+  pose proof (proj1 (proj2 roundtrip_all) vs fs Hwf Hok) as He. unfold elem_ok in He. rewrite He. reflexivity.
+Qed.
+
+(** ** 12. wire format and corollaries *)
+Theorem wire_items fs vs : okvs fs vs = true ->
+  marshal K fs vs = flat (it_vals fs vs) /\ items (marshal K fs vs) = ROk (it_vals fs vs) /\ Forall short (it_vals fs vs).
+Proof.
+  intros Hok. destruct (proj1 (proj2 enc_flat) vs fs Hok) as [E S]. unfold marshal. rewrite E.
+  split; [reflexivity|split; [apply items_of_flat; exact S|exact S]].
+Qed.
+
+(** fragments of one value: all but the last carry 255 bytes, none is empty, together they are the value *)
+Theorem frags_spec tag v :
+  map fst (frags tag v) = repeat tag (length (frags tag v)) /\ concat (map snd (frags tag v)) = v /\
+  Forall (fun p => snd p <> [] /\ (length (snd p) <= 255)%nat) (frags tag v).
+Proof.
+  unfold frags. split; [|split].
+  - rewrite map_map, map_length. cbn [fst]. induction (chunks 255 v); cbn; [reflexivity|f_equal; assumption].
+  - rewrite map_map. cbn [snd]. rewrite map_id. apply chunks_concat. lia.
+  - apply Forall_map. pose proof (chunks_nonempty 255 v ltac:(lia)) as H1. pose proof (chunks_len 255 v) as H2.
+    rewrite Forall_forall in *. intros c Hc. split; [apply H1; exact Hc|apply H2; exact Hc].
+Qed.
+
+Lemma rtp_roundtrip : forall name fs vs, In (name, fs) Gen.RtpGen.rtp_types -> okvs fs vs = true ->
+  unmarshal K fs (marshal K fs vs) = Ok (norm_vals fs vs).
+Proof.
+  intros name fs vs Hin Hok. apply roundtrip; [|exact Hok].
+  pose proof rtp_types_wf as H. rewrite forallb_forall in H. exact (H (name, fs) Hin).
+Qed.
+
+(** the pinned snapshot: int64 beyond 32 bits, any non-zero float32, inline elements with two fields *)
+Lemma pinned_roundtrip_refuted :
+  unmarshal pinned_knobs (FCons 1 TI64 FNil) (marshal pinned_knobs (FCons 1 TI64 FNil) (VCons (VNum 4294967296) VNil)) = Ok (VCons (VNum 0) VNil) /\
+  unmarshal pinned_knobs (FCons 1 TF32 FNil) (marshal pinned_knobs (FCons 1 TF32 FNil) (VCons (VNum 1065353216) VNil)) = Ok (VCons (VNum 0) VNil) /\
+  (let fs := FCons 0 (TInline (FCons 3 TU8 (FCons 4 TU8 FNil))) FNil in
+   let vs := VCons (VList (LCons (VCons (VNum 3) (VCons (VNum 4) VNil)) (LCons (VCons (VNum 5) (VCons (VNum 6) VNil)) LNil))) VNil in
+   wf_fields fs = true /\ okvs fs vs = true /\
+   unmarshal pinned_knobs fs (marshal pinned_knobs fs vs) =
+     Ok (VCons (VList (LCons (VCons (VNum 3) (VCons (VNum 4) VNil)) (LCons (VCons (VNum 5) (VCons (VNum 0) VNil)) LNil))) VNil)).
+Proof. vm_compute. repeat split; reflexivity. Qed.
+
+(** outside the value class the statement is false of the repaired tree too (the recorded findings) *)
+Lemma roundtrip_outside_class_refuted :
+  (let fs := FCons 0 (TInline (FCons 11 TU16 (FCons 5 TStr FNil))) FNil in
+   let vs := VCons (VList (LCons (VCons (VNum 0) (VCons (VBytes []) VNil)) (LCons (VCons (VNum 0) (VCons (VBytes [113]) VNil)) LNil))) VNil in
+   wf_fields fs = true /\ okvs fs vs = false /\ unmarshal K fs (marshal K fs vs) <> Ok (norm_vals fs vs)) /\
+  (let fs := FCons 7 (TList (FCons 1 TStr FNil)) FNil in
+   let vs := VCons (VList (LCons (VCons (VBytes []) VNil) (LCons (VCons (VBytes [97]) VNil) LNil))) VNil in
+   wf_fields fs = true /\ okvs fs vs = false /\ unmarshal K fs (marshal K fs vs) <> Ok (norm_vals fs vs)).
+Proof. split; vm_compute; (split; [reflexivity|split; [reflexivity|discriminate]]). Qed.
+
+Lemma roundtrip_nonvacuous :
+  let fs := FCons 1 TU8 (FCons 2 TI64 (FCons 3 TF32 (FCons 4 TStr (FCons 5 (TStruct (FCons 1 TU16 (FCons 2 TBytes FNil)))
+            (FCons 6 (TList (FCons 1 TI32 FNil)) (FCons 0 (TInline (FCons 8 TU8 (FCons 9 TBool FNil))) (FCons 10 TBool FNil))))))) in
+  let vs := VCons (VNum 255) (VCons (VNum (-9223372036854775808)) (VCons (VNum 2139095041) (VCons (VBytes [104; 105])
+            (VCons (VStruct (VCons (VNum 65535) (VCons (VBytes []) VNil)))
+            (VCons (VList (LCons (VCons (VNum (-1)) VNil) (LCons (VCons (VNum 2147483647) VNil) LNil)))
+            (VCons (VList (LCons (VCons (VNum 0) (VCons (VBool false) VNil)) (LCons (VCons (VNum 7) (VCons (VBool true) VNil)) LNil)))
+            (VCons (VBool true) VNil))))))) in
+  wf_fields fs = true /\ okvs fs vs = true /\ unmarshal K fs (marshal K fs vs) = Ok (norm_vals fs vs) /\ norm_vals fs vs <> vs.
+Proof. vm_compute. repeat split; try reflexivity. discriminate. Qed.
